@@ -201,6 +201,21 @@ class ShapeMismatch(Exception):
 
 
 def compare_nested(nested, sweep, sort_combos, finished_locs=None):
+    """Compare a raw nested result with the reference.  A raw nested tuple
+    carries no labels; the crop nests grid arguments sorted by name, a direct
+    run in the order given.  Both are 'the value at every grid position', so
+    the comparison accepts either axis order (values are injective, a
+    mis-placed value cannot pass under the other order by accident unless the
+    two orders coincide)."""
+    first = _compare_nested(nested, sweep, sort_combos, finished_locs)
+    if first is None:
+        return None
+    if _compare_nested(nested, sweep, not sort_combos, finished_locs) is None:
+        return None
+    return first
+
+
+def _compare_nested(nested, sweep, sort_combos, finished_locs=None):
     """Compare a nested result with the reference.
 
     finished_locs: None -> every requested setting must hold its exact value.
